@@ -1,7 +1,120 @@
 import Driver.Util
+import Model.Codec
+import Model.TilePath
+import Model.Sha256
+/-!
+Driver for engine `codec` (C10). Line protocol: `<op> <args…> = <implementation result…>`.
+The driver recomputes the result with the model definitions of `Model/Codec.lean` and
+`Model/TilePath.lean` (the ones `Props/C10.lean` is about) and compares strings.
+
+  leaf  t0 ts pre cert ikh fps precert idx arch = <appendHex|PANIC> <mtlHex|PANIC>
+  read  tile   = OK ts pre cert ikh fps precert idx arch rest | ERR <class>     (ReadTileLeafMaybeArchival)
+  reads tile   = idem                                                            (ReadTileLeaf)
+  mext  idx    = <hex> | ERR
+  pext  bytes  = OK idx | ERR <class>
+  cache cert pre ikh = <sha256 hex> | PANIC
+  tpath H L N W  = <pathHex> | PANIC        (sunlight.TilePath)
+  tlpath H L N W = <pathHex>                (tlog.Tile.Path)
+  tparse path  = OK H L N W | ERR           (sunlight.ParseTilePath)
+  tlparse path = OK H L N W | ERR           (tlog.ParseTilePath)
+-/
 namespace Driver.Codec
-/-- stub: engine not implemented yet -/
+open _root_.Codec
+
+def hx (bs : Bytes) : String := Bytes.toHexP bs
+
+def chunk32 : Nat → Bytes → List Bytes
+  | 0, _ => []
+  | fuel+1, bs => if bs.isEmpty then [] else bs.take 32 :: chunk32 fuel (bs.drop 32)
+
+def bit (s : String) : Option Bool := if s == "1" then some true else if s == "0" then some false else none
+
+def leafErr : LeafErr → String
+  | .header => "header" | .x509 => "x509" | .precert => "precert" | .unknownType => "unknown-type"
+  | .extensions => "extensions" | .fingerprints => "fingerprints" | .archival => "archival"
+
+def extErr : ExtErr → String
+  | .invalid => "invalid" | .leafIndex => "leaf-index" | .missing => "missing"
+
+def b01 (b : Bool) : String := if b then "1" else "0"
+
+def showEntry (e : LogEntry) (rest : Bytes) : String :=
+  s!"OK {e.timestamp} {b01 e.isPrecert} {hx e.certificate} {hx e.issuerKeyHash} {hx e.chainFingerprints.flatten} {hx e.preCertificate} {e.leafIndex} {b01 e.archival} {hx rest}"
+
+def showRead (r : Except LeafErr (LogEntry × Bytes)) : String × String :=
+  match r with
+  | .error e => (s!"ERR {leafErr e}", s!"err-{leafErr e}")
+  | .ok (e, rest) => (showEntry e rest,
+      s!"ok-{if e.isPrecert then "precert" else "x509"}-{if e.archival then "archival" else "indexed"}")
+
+def showTile (t : TilePath.Tile) : String := s!"OK {t.H} {t.L} {t.N} {t.W}"
+
+/-- model result and the branch id reached, or `none` if the line is malformed -/
+def eval (op : String) (a : List String) : Option (String × String) :=
+  match op, a with
+  | "leaf", [t0, ts, pre, cert, ikh, fps, precert, idx, arch] => do
+    let t0 ← Bytes.ofHex t0
+    let fpsB ← Bytes.ofHex fps
+    let e : LogEntry := {
+      certificate := ← Bytes.ofHex cert, isPrecert := ← bit pre, issuerKeyHash := ← Bytes.ofHex ikh,
+      chainFingerprints := chunk32 fpsB.length fpsB, preCertificate := ← Bytes.ofHex precert,
+      leafIndex := ← idx.toInt?, archival := ← bit arch, timestamp := ← ts.toInt? }
+    let a := match appendTileLeaf t0 e with | some b => hx b | none => "PANIC"
+    let m := match merkleTreeLeaf e with | some b => hx b | none => "PANIC"
+    let br := s!"leaf-{if e.isPrecert then "precert" else "x509"}-{if e.archival then "archival" else "indexed"}{if a == "PANIC" then "-panic" else ""}"
+    pure (s!"{a} {m}", br)
+  | "read", [tile] => do
+    let (s, b) := showRead (readTileLeaf (← Bytes.ofHex tile))
+    pure (s, "read-" ++ b)
+  | "reads", [tile] => do
+    let (s, b) := showRead (readTileLeafStrict (← Bytes.ofHex tile))
+    pure (s, "reads-" ++ b)
+  | "mext", [idx] => do
+    match marshalExtensions (← idx.toInt?) with
+    | some b => pure (hx b, "mext-ok")
+    | none => pure ("ERR", "mext-err")
+  | "pext", [b] => do
+    match parseExtensions (← Bytes.ofHex b) with
+    | .ok i => pure (s!"OK {i}", "pext-ok")
+    | .error e => pure (s!"ERR {extErr e}", s!"pext-{extErr e}")
+  | "cache", [cert, pre, ikh] => do
+    match cachePreimage (← Bytes.ofHex cert) (← bit pre) (← Bytes.ofHex ikh) with
+    | some p => pure (Bytes.toHex (Bytes.ofByteArray (Sha256.hash (Bytes.toByteArray p))), if pre == "1" then "cache-precert" else "cache-x509")
+    | none => pure ("PANIC", "cache-panic")
+  | "tpath", [h, l, n, w] => do
+    let t : TilePath.Tile := { H := ← h.toInt?, L := ← l.toInt?, N := ← n.toInt?, W := ← w.toInt? }
+    match TilePath.sunlightPath t with
+    | some p => pure (hx p, if t.L = -2 then "tpath-names" else if t.L = -1 then "tpath-data" else "tpath-hash")
+    | none => pure ("PANIC", "tpath-panic")
+  | "tlpath", [h, l, n, w] => do
+    let t : TilePath.Tile := { H := ← h.toInt?, L := ← l.toInt?, N := ← n.toInt?, W := ← w.toInt? }
+    pure (hx (TilePath.tlogPath t), "tlpath")
+  | "tparse", [p] => do
+    match TilePath.sunlightParse (← Bytes.ofHex p) with
+    | some t => pure (showTile t, if t.L = -2 then "tparse-names" else if t.L = -1 then "tparse-data" else "tparse-hash")
+    | none => pure ("ERR", "tparse-err")
+  | "tlparse", [p] => do
+    match TilePath.tlogParse (← Bytes.ofHex p) with
+    | some t => pure (showTile t, "tlparse-ok")
+    | none => pure ("ERR", "tlparse-err")
+  | _, _ => none
+
 def main : IO UInt32 := do
-  IO.println "MISMATCH 0 engine codec has no driver yet"
+  let t ← Driver.foldLines ({} : Driver.Tally) fun t n l => do
+    let t := { t with lines := t.lines + 1 }
+    match l.splitOn " = " with
+    | [lhs, impl] =>
+      match Driver.words lhs with
+      | op :: args =>
+        match eval op args with
+        | some (model, br) =>
+          if model == impl then return { t.bump br with ok := t.ok + 1 }
+          else
+            IO.println s!"MISMATCH {n} {op} model=[{model.take 300}] impl=[{impl.take 300}] args=[{(String.intercalate " " args).take 400}]"
+            return { t with mismatches := t.mismatches + 1 }
+        | none => IO.println s!"MISMATCH {n} bad-args {lhs.take 200}"; return { t with mismatches := t.mismatches + 1 }
+      | [] => IO.println s!"MISMATCH {n} empty"; return { t with mismatches := t.mismatches + 1 }
+    | _ => IO.println s!"MISMATCH {n} bad-line {l.take 200}"; return { t with mismatches := t.mismatches + 1 }
+  IO.println t.summary
   return 0
 end Driver.Codec
